@@ -43,7 +43,8 @@ func (c18) Components() map[string]string {
 	return map[string]string{"namepool": "real (rewritten)", "sync.Pool": "stub: simrt.Pool contract model", "sync/atomic": "real atomics behind a scheduling point", "goroutine scheduling": "simulated (simrt baton scheduler)"}
 }
 
-var c18Formats = []string{"%d", "stmt%d", "c_%d_x", "%05d", "%x", "noverb", "", "%v", "%d%%", "cursor_%d"}
+var c18Formats = []string{"%d", "stmt%d", "c_%d_x", "%05d", "%x", "noverb", "", "%v", "%d%%", "cursor_%d",
+	"load_100%%_%d", "%%%d", "%%d%d", "%d_%d", "%s%d", "%[1]d-%[1]d", "% d", "%+d", "%-6d|", "%q", "tab\t%d", "ünï%d", "%c%d"}
 
 func (c18) Gen(r *Rand, idx int, tier string) interface{} {
 	p := &c18Plan{Knobs: GenKnobs(r), Format: Pick(r, c18Formats)}
